@@ -9,6 +9,8 @@ driver commands for C19 (the checker of `Model/IR.lean`, executed on programs pr
 
   `ir.check <program> <solution>`   → T/F   (`safe`: post-fixpoint and no write through a possibly-owned variable)
   `ir.fix   <program> <solution>`   → T/F   (`isPostFixpoint` only)
+  `ir.wf    <program> <solution>`   → T/F   (`wellFormed`: tables cover every variable and site, every variable read is bound
+                                              by a parameter or an instruction, every write target has a non-empty points-to set)
   `ir.solve <program>`              → the solver's solution (unverified; checked by the two commands above)
   `ir.globals <program> <reads> <writes> <T|F>` → T/F (`globalsWithin`)
 -/
@@ -60,6 +62,10 @@ def handle : Handler
     let p ← progOf? p
     let s ← solOf? s
     pure (ofBool (isPostFixpoint p s))
+  | "ir.wf", [p, s] => do
+    let p ← progOf? p
+    let s ← solOf? s
+    pure (ofBool (wellFormed p s))
   | "ir.solve", [p] => do
     let p ← progOf? p
     pure (ofSol (solve p (p.instrs.length + 2)))
